@@ -417,7 +417,18 @@ func (e *exprCtx) expr(v ssa.Value) string {
 	case *ssa.Next:
 		return "next(" + e.expr(x.Iter) + ")"
 	case *ssa.Select:
-		return "select"
+		// ordinal of this select within its function, so that two selects never render alike
+		k := 0
+		n := 0
+		eachInstr(x.Parent(), func(i ssa.Instruction) {
+			if sel, ok := i.(*ssa.Select); ok {
+				n++
+				if sel == x {
+					k = n
+				}
+			}
+		})
+		return fmt.Sprintf("select%d", k)
 	}
 	return fmt.Sprintf("?%T", v)
 }
